@@ -70,8 +70,30 @@ def make_case(rng, idx):
             "pipelines": pipes, "steps": steps, "drain": 400, "_ties": ties}
 
 
+def long_case(rng, waves):
+    """Many waves of containers on one overcommitted pool: thousands of kill decisions in one executor."""
+    tps = rng.choice([5, 10])
+    R = 64
+    pipes, steps = [], []
+    for wv in range(waves):
+        asg = []
+        for j in range(rng.randint(3, 6)):
+            i = len(pipes)
+            io_t = rng.randint(4, 9) + 0.5
+            pipes.append({"pid": f"w{i}", "prio": "BATCH_PIPELINE", "ops": [{"parents": [], "segs": [
+                {"cpu": (rng.randint(0, 2) + 0.5) / tps, "law": "const", "mem": None, "read": 20.0 * io_t / tps}]}]})
+            asg.append({"pool": 0, "cpu": 1, "ram": R * rng.choice([0.25, 0.5, 1.0, 2.0]), "ops": [[i, 0]]})
+        steps.append({"sus": [], "asg": asg})
+        for _ in range(rng.randint(2, 4)):
+            steps.append({"sus": [], "asg": []})
+    return {"kind": "overcommit", "world": {"pools": 1, "cpus": 64, "ram": R, "tps": tps, "multi": True, "overcommit": True},
+            "pipelines": pipes, "steps": steps, "drain": 200, "_long": True}
+
+
 def cases(tier, seed, shard, nshards):
     rng = rng_for(ID, seed, shard)
+    if tier == "thorough" or shard < 3:
+        yield long_case(rng, 600 if tier == "quick" else 1500)
     for i in range(N_CASES[tier]):
         yield make_case(rng, i)
     for i in range(N_SIM[tier]):
